@@ -37,7 +37,7 @@ HERE = os.path.dirname(os.path.abspath(__file__))
 CHILD = os.path.join(HERE, "export_child.py")
 KINDS = ["static", "inh", "dyn"]
 KEYS = [0, 1, 2]
-MAX_QUERIES = 140
+MAX_QUERIES = 64
 
 # global names that shadow built-ins: references / cells are renamed to these
 # (never sum / len / int / range: the templates use those as the real built-ins)
@@ -310,7 +310,7 @@ def enumerate_queries(w, rng):
         for k in sorted(by):
             lst = by[k]
             rng.shuffle(lst)
-            keep += lst[:max(12, share)]
+            keep += lst[:max(8, share)]
         ids = {id(q) for q in keep}
         qs = [q for q in qs if id(q) in ids]
     return qs
